@@ -9,12 +9,14 @@ import (
 	"os"
 	"path/filepath"
 	"runtime"
+	"strings"
 	"sync"
 	"testing"
 	"testing/iotest"
 
 	"github.com/ipfs/go-cid"
 	"github.com/ipfs/go-unixfsnode/data/builder"
+	quickbuilder "github.com/ipfs/go-unixfsnode/data/builder/quick"
 	dagpb "github.com/ipld/go-codec-dagpb"
 	"github.com/ipld/go-ipld-prime"
 	cidlink "github.com/ipld/go-ipld-prime/linking/cid"
@@ -145,6 +147,17 @@ func TestC10(t *testing.T) {
 			cmp("frag-onebyte", build(iotest.OneByteReader(bytes.NewReader(content))))
 			cmp("frag-half", build(iotest.HalfReader(bytes.NewReader(content))))
 			cmp("frag-dataerr", build(iotest.DataErrReader(bytes.NewReader(content))))
+			// a seekable source that the caller has already read a header from: the logical input is
+			// what is left in it
+			{
+				hdr := gen.Content(rr, "rand", 1+rr.Intn(9))
+				br := bytes.NewReader(append(append([]byte(nil), hdr...), content...))
+				br.Seek(int64(len(hdr)), io.SeekStart)
+				cmp("positioned-seekable", build(br))
+				sr := strings.NewReader(string(hdr) + string(content))
+				io.CopyN(io.Discard, sr, int64(len(hdr)))
+				cmp("positioned-seekable", build(sr))
+			}
 			for i := 0; i < F; i++ {
 				fr := &fragReader{b: content, r: rand.New(rand.NewSource(rr.Int63())), max: 1 + rr.Intn(3*fc.Chunk), zeros: i%2 == 1, withEOF: i%3 == 2}
 				cmp("frag-random", build(fr))
@@ -402,6 +415,64 @@ func TestC10(t *testing.T) {
 		})
 	}
 	// symlinks are pure functions of their target text
+	// quick-builder nodes are values: one node put under several names, in one directory or in two,
+	// gives what separately made nodes give
+	r.Case("quick-node-reuse", map[string]any{"directories": 3}, func(c *mon.Case) {
+		rr := c.Rand()
+		for round := 0; round < 6; round++ {
+			st := store.New()
+			ls := st.LinkSystem(false)
+			fdata := gen.Content(rr, "rand", 10+rr.Intn(300))
+			gdata := gen.Content(rr, "rand", 10+rr.Intn(300))
+			type dres struct {
+				names []string
+				link  ipld.Link
+			}
+			var got []dres
+			var flink, glink ipld.Link
+			var fsz, gsz int64
+			ok := c.Guard("quick builder", func() {
+				quickbuilder.Store(ls, func(b *quickbuilder.Builder) error {
+					f := b.NewBytesFile(fdata)
+					g := b.NewBytesFile(gdata)
+					flink, glink = f.Link(), g.Link()
+					fsz, _ = f.Size()
+					gsz, _ = g.Size()
+					d1 := b.NewMapDirectory(map[string]quickbuilder.Node{"first-name": f})
+					got = append(got, dres{[]string{"first-name"}, d1.Link()})
+					d2 := b.NewMapDirectory(map[string]quickbuilder.Node{"other-name": f, "x": g})
+					got = append(got, dres{[]string{"other-name", "x"}, d2.Link()})
+					d3 := b.NewMapDirectory(map[string]quickbuilder.Node{"n1": f, "n2": f, "a": g, "zz": f})
+					got = append(got, dres{[]string{"n1", "n2", "a", "zz"}, d3.Link()})
+					return nil
+				})
+			})
+			if !ok || len(got) != 3 {
+				return
+			}
+			for _, d := range got {
+				var entries []dagpb.PBLink
+				for _, nm := range d.names {
+					l, sz := flink, fsz
+					if nm == "x" || nm == "a" {
+						l, sz = glink, gsz
+					}
+					e, err := builder.BuildUnixFSDirectoryEntry(nm, sz, l)
+					if err != nil {
+						c.Harness("entry: %v", err)
+						return
+					}
+					entries = append(entries, e)
+				}
+				want, _, err := builder.BuildUnixFSDirectory(entries, store.New().LinkSystem(false))
+				c.Count("builds_compared", 1)
+				if err != nil || d.link == nil || want.String() != d.link.String() {
+					c.Violation("C10|dir|quick-node-reuse", "a quick-builder directory with entries %v that re-uses node values is %v; the same entries from separately made links give %v (%v)", d.names, d.link, want, err)
+				}
+			}
+		}
+		c.Sig("quick-node-reuse", true)
+	})
 	r.Case("symlink", map[string]any{"targets": 6}, func(c *mon.Case) {
 		for _, tgt := range []string{"", "a", "../x/y", "/abs/target", "ünï", string(bytes.Repeat([]byte("p/"), 200))} {
 			var first buildResult
